@@ -21,21 +21,33 @@ from .engine import Sym, oarray
 from . import model as M
 
 
+def lit(x) -> str:
+    """An exact rational literal in a slot, in a form that survives JSON (replay files): "=numerator/denominator"."""
+    f = Fraction(x)
+    return "=%d/%d" % (f.numerator, f.denominator)
+
+
+def _is_atom(s) -> bool:
+    return isinstance(s, str) and not s.startswith("=")
+
+
 def spec_atoms(spec: Dict) -> List[str]:
     out: List[str] = []
     if spec.get("kind", "poly") == "poly":
         for col in spec["slots"]:
             for s in col:
-                if isinstance(s, str) and s not in out:
+                if _is_atom(s) and s not in out:
                     out.append(s)
     elif spec["kind"] in ("array", "list", "scalar"):
         for s in spec["slots"]:
-            if isinstance(s, str) and s not in out:
+            if _is_atom(s) and s not in out:
                 out.append(s)
     return out
 
 
 def _slot_value(s, values: Optional[Dict[str, Fraction]], unsigned: bool = False):
+    if isinstance(s, str) and s.startswith("="):
+        s = Fraction(s[1:])
     if isinstance(s, str):
         if values is None:
             return Sym.atom(s)
@@ -120,6 +132,9 @@ def apply_view(a, view):
         return a[::-1] if not hasattr(a, "names") else numpy.ndarray.__getitem__(a, slice(None, None, -1))
     if view == "swap":
         return a.swapaxes(0, -1)
+    if view == "cyc":  # axes rotated by one: a permutation that is not its own inverse (3-d and up)
+        nd = len(a.shape)
+        return a.transpose(tuple(range(1, nd)) + (0,)) if nd >= 2 else a
     raise ValueError(view)
 
 
@@ -130,7 +145,32 @@ def view_shape(spec) -> Tuple[int, ...]:
         return tuple(reversed(shape))
     if v == "swap" and len(shape) >= 2:
         return (shape[-1],) + shape[1:-1] + (shape[0],)
+    if v == "cyc" and len(shape) >= 2:
+        return tuple(shape[1:]) + (shape[0],)
     return shape
+
+
+def _layout(a: numpy.ndarray, layout):
+    """The same numbers in another memory layout (plain array operands): Fortran order, a strided view of a larger buffer, a
+    read-only array.  Values and shape are unchanged, so models and expectations are too."""
+    if not layout or a.ndim == 0 or a.size == 0:
+        return a
+    if layout == "F":
+        return numpy.asfortranarray(a)
+    if layout == "strided":
+        big = numpy.empty(tuple(2 * n for n in a.shape), dtype=a.dtype)
+        if a.dtype == object:
+            big[...] = 0
+        else:
+            big[...] = numpy.array(99).astype(a.dtype) if a.dtype.kind != "b" else True
+        view = big[tuple(slice(None, None, 2) for _ in a.shape)]
+        view[...] = a
+        return view
+    if layout == "readonly":
+        b = a.copy()
+        b.flags.writeable = False
+        return b
+    raise ValueError(layout)
 
 
 def build_operand(spec: Dict, values: Optional[Dict[str, Fraction]] = None):
@@ -160,15 +200,17 @@ def build_operand(spec: Dict, values: Optional[Dict[str, Fraction]] = None):
     vals = [_slot_value(s, values) for s in spec["slots"]]
     if kind == "scalar":
         v = vals[0]
+        if spec.get("carrier") and values is not None:  # an exact literal handed over as a python float / 0-d float64 array
+            return float(Fraction(v)) if spec["carrier"] == "pyfloat" else numpy.array(float(Fraction(v)))
         if values is None:
             return numpy.asarray(v, dtype=object) if isinstance(v, Sym) else v
         dt = _native_dtype(vals)
         return dt(_native(v, dt)) if spec.get("np") else _native(v, dt)
     if kind == "array":
         if values is None:
-            return oarray(vals, shape)
+            return _layout(oarray(vals, shape), spec.get("layout"))
         dt = numpy.dtype(spec["dtype"]) if spec.get("dtype") else _native_dtype(vals)
-        return numpy.array([_native(v, dt) for v in vals], dtype=dt).reshape(shape)
+        return _layout(numpy.array([_native(v, dt) for v in vals], dtype=dt).reshape(shape), spec.get("layout"))
     if kind == "list":
         if values is None:
             return oarray(vals, shape).tolist()
@@ -265,7 +307,11 @@ def make_numeric_spec(prefix: str, kind: str, shape, rng: random.Random, atom_bu
             used += 1
         else:
             slots.append(rng.choice([0, 1, -1, 2, 3]))
-    return {"kind": kind, "shape": list(shape), "slots": slots}
+    sp = {"kind": kind, "shape": list(shape), "slots": slots}
+    if kind == "array" and len(shape) >= 1 and n > 1 and rng.random() < 0.4:
+        # memory layout is not part of an array's value
+        sp["layout"] = rng.choice(["F", "strided", "readonly"] if len(shape) >= 2 else ["strided", "readonly"])
+    return sp
 
 
 def broadcastable(s1, s2) -> bool:
